@@ -91,19 +91,21 @@ class C19(Property):
     clauses_without_theorem = (
         '"quantities expressed in any compatible units" in the sense of the third-party package `quantities`: universal theorems exist at the '
         'scale-factor reading (L1) for every function and in the quantity algebra (L2) for nernst_potential (constants path), water_viscosity, '
-        'Henry_H_at_T (default T0) and the float(t_K) of sulfuric_acid_density; for water_density, diffusivity, permittivity, mobility, '
-        'lg_solubility_ratio, Henry with explicit T0 and nernst with a units object the L2 reading is decided by correspondence (ops *_u2) only',
+        'Henry_H_at_T (default T0), electrical_mobility_from_D (SI value and dimension vector) and the float(t_K) of sulfuric_acid_density; for water_density, '
+        'diffusivity, permittivity, lg_solubility_ratio, Henry with explicit T0 and nernst with a units object the L2 reading is decided by correspondence (ops *_u2) only',
         'that the L2 algebra describes `quantities` (rescaling on +/-, "must be dimensionless", float(q) = raw magnitude, math.log(q)): correspondence only',
         'anchor values of water_viscosity as VALUES (the theorem bounds the rational exponent; the conversion of the table to log10 bounds is '
         'trusted arithmetic), of water_self_diffusion_coefficient (Holz: 2.299e-9 at 25 degC and the other 7 table values), water_permittivity '
         '(78.38436874203077 at 25 degC 1 bar; 80.1 / 55.3), nernst_potential (60.605, -96.8196, 137.0436, -64.0567 mV), Henry (0.001421892; 1.05), '
         'density_from_concentration (1021; 1058.5): irrational (exp / log / non-integer power) or iterative values - oracle on the real code only',
         'water permittivity falls with temperature: proved at the reference pressure 1000 bar only; at the default pressure 1 bar and elsewhere oracle grid only',
-        'range warnings in unit mode for viscosity, diffusivity, permittivity, sulfuric acid (proved for water_density only; the others: correspondence of the '
-        'translated `...UWarns` predicates with the real warnings)',
+        'range warnings in unit mode for water_permittivity (proved for density, viscosity, diffusivity, sulfuric acid; permittivity: correspondence of the '
+        'translated `...UWarns` predicate with the real warnings)',
         'pressure warnings of water_permittivity (the property names temperature only; the coded pressure rule is mirrored, `P > 5000 bar` is unreachable)',
-        'density_from_concentration inverts the forward relation: proved as "a returned value is an atol-approximate fixed point" for an arbitrary callback; '
-        'that the iteration converges for sulfuric acid in the documented range is sampled (oracle), not proved',
+        'density_from_concentration: proved for an arbitrary callback (returned value = atol-approximate fixed point; returns the first converged iterate iff it '
+        'exists within maxiter); WHICH concentrations converge for sulfuric acid is not proved - with the defaults more than half of 0.1 <= w <= 0.9 raises '
+        'NoConvergence (documented refusal); the oracle re-implements the documented iteration and claims agreement for every input',
+        'optional arguments T=None / explicit T0 of sulfuric_acid_density and atol = inf / nan, maxiter < 0 of density_from_concentration: correspondence + oracle',
         'statelessness (a value does not depend on earlier calls: err_mult histories) and the option combinations constants x units x plain / same-prefix / '
         'mixed-prefix quantities of nernst_potential and electrical_mobility_from_D: oracle / correspondence only (the model is a pure function by construction)',
         'argument SHAPE x unit (0-d, 1-d, 2-d numpy grids, T x P meshes, in own and scaled / foreign units) for all relations: oracle only (`mode: grid`, '
@@ -235,6 +237,12 @@ class C19(Property):
                     c['P'] = lu(1, 6000)
                 if fn == 'sulfuric_acid_density':
                     c['w'] = g6(rng.uniform(0.05, 0.95))
+                    q = rng.random()
+                    if q < 0.15:
+                        c['defT'] = True
+                        c['T'] = 298.15
+                    elif q < 0.35:
+                        c['T0'] = g6(rng.choice([273.15, 273.16, 273.0, rng.uniform(268, 278)]))
                 if fn == 'water_diffusivity' and rng.random() < 0.4:
                     c['err'] = [rng.choice(ERRS), rng.choice(ERRS)]
                 if mode != 'plain':
@@ -452,6 +460,11 @@ class C19(Property):
             return (lambda: water_permittivity(T, P, units=uo)), [T, P], uo
         if fn == 'sulfuric_acid_density':
             from chempy.properties.sulfuric_acid_density_myhre_1998 import sulfuric_acid_density
+            if c.get('defT'):           # T omitted: 298.15 K
+                return (lambda: sulfuric_acid_density(c['w'], units=uo)), [c['w']], uo
+            if c.get('T0') is not None:  # explicit zero of the Celsius scale
+                T0 = c['T0'] * uo.Kelvin if unitful else c['T0']
+                return (lambda: sulfuric_acid_density(c['w'], T, T0, units=uo)), [c['w'], T, T0], uo
             return (lambda: sulfuric_acid_density(c['w'], T, units=uo)), [c['w'], T], uo
         if fn.startswith('henry'):
             h, kw, H, Td, T0 = self._henry(c, uo)
@@ -520,6 +533,8 @@ class C19(Property):
         fn, mode = c['fn'], c['mode']
         if mode in ('oracle_units', 'anchor', 'history', 'grid'):
             return None
+        if (c.get('defT') or c.get('T0') is not None) and mode != 'plain':
+            return None          # optional-argument variants of sulfuric_acid_density with units: oracle only (unit mode = plain mode)
         mc = dict(c)
         if mode == 'rat':
             if fn == 'water_density':
@@ -548,7 +563,11 @@ class C19(Property):
         if mode == 'plain':
             if fn in PLAIN_OP:
                 a = [c['w'], c['T']] if fn == 'sulfuric_acid_density' else [c['T']] + ([c['P']] if 'P' in c else [])
-                if c.get('err') is not None:
+                if c.get('defT'):
+                    mc.update(op='sulfuric_acid_density_defT', a=[f2b(c['w'])])
+                elif c.get('T0') is not None:
+                    mc.update(op='sulfuric_acid_density_T0', a=[f2b(c['w']), f2b(c['T']), f2b(c['T0'])])
+                elif c.get('err') is not None:
                     mc.update(op='water_diffusivity_err', a=[f2b(x) for x in a + list(c['err'])])
                 else:
                     mc.update(op=fn, a=[f2b(x) for x in a])
@@ -759,6 +778,8 @@ class C19(Property):
             return None, False
         lo, hi = REF_RANGES[fn]
         T = c['T']
+        if c.get('T0') is not None:        # the range is 0-50 degC counted from the given zero
+            lo, hi = lo - 273.15 + c['T0'], hi - 273.15 + c['T0']
         near = any(abs(T - b) < 1e-9 * b for b in (lo, hi))
         out = T < lo or T > hi
         if fn == 'sulfuric_acid_density':
@@ -776,6 +797,8 @@ class C19(Property):
 
     def _near_boundary(self, c):
         lo, hi = REF_RANGES[c['fn']]
+        if c.get('T0') is not None:
+            lo, hi = lo - 273.15 + c['T0'], hi - 273.15 + c['T0']
         pts = [lo, hi] + ([343.15] if c['fn'] == 'water_permittivity' else [])
         if any(abs(c['T'] - b) < 1e-9 * b for b in pts):
             return True
